@@ -4,11 +4,33 @@ let runners : (string * (string -> string list -> string list list -> (string ->
   ("C09", Drv_c09.run);
   ("C01", Drv_c01.run);
   ("C08", Drv_c01.run);
+  ("C18", Drv_c18.run);
+  ("C10", Drv_c10.run);
+  ("C02", Drv_c02.run);
+  ("C16", Drv_c16.run);
   ("C20", Drv_c20.run);
 ]
 
+(* optional third argument: the harness output for the same cases (for models that need
+   run-time facts such as surviving file lengths); indexed by case id in Kutil.impl_lines *)
+let load_impl path =
+  let ic = open_in path in
+  (try
+     while true do
+       let l = input_line ic in
+       match Kutil.split_ws l with
+       | id :: rest ->
+         let cur = try Hashtbl.find Kutil.impl_lines id with Not_found -> [] in
+         Hashtbl.replace Kutil.impl_lines id (rest :: cur)
+       | [] -> ()
+     done
+   with End_of_file -> ());
+  close_in ic;
+  Hashtbl.filter_map_inplace (fun _ v -> Some (Stdlib.List.rev v)) Kutil.impl_lines
+
 let () =
   let prop = Sys.argv.(1) and file = Sys.argv.(2) in
+  if Array.length Sys.argv > 3 then load_impl Sys.argv.(3);
   let run = try Stdlib.List.assoc prop runners with Not_found -> (prerr_endline ("no model runner for " ^ prop); exit 2) in
   let ic = open_in file in
   let out s = print_string s; print_char '\n' in
